@@ -275,3 +275,50 @@ func ZZ_C22_updateproposals() {
 	zzAssertSameProposal(p, pc)
 	zzAssertSameProposal(target, tc)
 }
+
+// ZZ_C22_impeach: the per-block impeachment step (Committee.updateCRMembers,
+// logged in the committee history): a member that is elected, inactive or
+// illegal, with impeachment votes below, at or above the threshold (10% of a
+// circulation of 1000), and the used impeachment votes of a stake address that
+// voted for this member and / or another one.
+func ZZ_C22_impeach() {
+	cfg := zzCRConfig()
+	cfg.CRConfiguration.VoterRejectPercentage = 10
+	cfg.CRConfiguration.DutyPeriod = 1000
+	c := zzCommittee(cfg)
+	c.CirculationAmount = 1000
+	c.LastCommitteeHeight = 50
+	c.InElectionPeriod = true
+	st := []MemberState{MemberElected, MemberInactive, MemberIllegal}[nd.Choose("memberState", 3)]
+	m := &CRMember{Info: payload.CRInfo{CID: common.Uint168{0x67, 5}, DID: common.Uint168{0x67, 6}}, MemberState: st,
+		ImpeachmentVotes: []common.Fixed64{99, 100, 101}[nd.Choose("impeachmentVotes", 3)]}
+	c.Members[m.Info.DID] = m
+	c.state.DepositInfo[m.Info.CID] = &DepositInfo{DepositAmount: zzCRAmount("depositAmount"), Penalty: zzCRAmount("penalty"), TotalAmount: zzCRAmount("totalAmount")}
+	other := common.Uint168{0x67, 7}
+	stake := common.Uint168{0x54, 1}
+	if nd.Bool("votedForThisMember") {
+		c.state.UsedCRImpeachmentVotes[stake] = append(c.state.UsedCRImpeachmentVotes[stake], payload.VotesWithLockTime{Candidate: m.Info.CID.Bytes(), Votes: 60, LockTime: 9})
+	}
+	if nd.Bool("votedForAnotherMember") {
+		c.state.UsedCRImpeachmentVotes[stake] = append(c.state.UsedCRImpeachmentVotes[stake], payload.VotesWithLockTime{Candidate: other.Bytes(), Votes: 7, LockTime: 9})
+	}
+	stt := c.state.StateKeyFrame.Snapshot()
+	kf := c.KeyFrame.Snapshot()
+	kf.NextMembers = copyMembersMap(c.NextMembers)
+	kf.ClaimedDPoSKeys = copyClaimedDPoSKeysMap(c.ClaimedDPoSKeys)
+	kf.NextClaimedDPoSKeys = copyClaimedDPoSKeysMap(c.NextClaimedDPoSKeys)
+	c.committeeHistory.Commit(zzH - 1)
+	nd.NoPanic("process", func() {
+		c.updateCRMembers(zzH, true)
+		c.committeeHistory.Commit(zzH)
+	})
+	nd.Reach("processed")
+	if m.MemberState == MemberImpeached {
+		nd.Reach("impeached")
+	}
+	nd.NoPanic("rollback", func() {
+		nd.Assert(c.committeeHistory.RollbackTo(zzH-1) == nil, "rollback_of_one_block_succeeds")
+	})
+	zzAssertSameState(&c.state.StateKeyFrame, stt)
+	zzAssertSameCommittee(&c.KeyFrame, kf)
+}
